@@ -153,6 +153,53 @@ def check(rep, tier, seed):
                            "val": "(0" + "".join(" " + x for x in items) + ")", "unordered": False})
     iimpl, imod = C.run_codec(harness, model, icases, wd, "it")
     dis += [(C.codec_line(c), a, b) for c, a, b in zip(icases, iimpl, imod) if a != b]
+    # (3) concrete Rust element types at the u8 special case (the dynamic route's element type is the harness's own
+    # value type): what the unsized slice [T] writes - reached through &[T] and Rc<[T]> - read as Vec<T>, LinkedList<T>
+    # and [T; N]; what Vec<T> and [T; N] write read as each other
+    mono = []
+    mtypes = {"i8": (["(slice i8)", "(vec i8)", "(ll i8)", "(arr 2 i8)", "(arr 17 i8)"], G.P("i8")),
+              "bool": (["(slice bool)", "(vec bool)", "(arr 0 bool)", "(arr 1 bool)", "(arr 3 bool)"], G.P("bool")),
+              "u8": (["(slice u8)", "(vec u8)", "(ll u8)", "(arr 0 u8)", "(arr 1 u8)", "(arr 33 u8)"], G.P("u8")),
+              "u16": (["(slice u16)", "(vec u16)", "(arr 3 u16)"], G.P("u16"))}
+    arrlen = lambda t: int(t.split(" ")[1]) if t.startswith("(arr ") else None
+    for ename, (tys, e) in mtypes.items():
+        for src in tys:
+            for dst in tys:
+                if dst.startswith("(slice"):
+                    continue                       # slices are write-only
+                for _ in range(reps):
+                    n = arrlen(src) if arrlen(src) is not None else (arrlen(dst) if arrlen(dst) is not None and rng.random() < 0.7 else rng.choice([0, 1, 2, 3, 17, 33]))
+                    items = [G.gen_value(rng, e, None, 0.4) for _ in range(n)]
+                    if ename == "u8":
+                        val = "b" + "".join("%02x" % int(x[1:]) for x in items) if not src.startswith("(ll") else "(0" + "".join(" " + x for x in items) + ")"
+                    else:
+                        val = "(0" + "".join(" " + x for x in items) + ")"
+                    mono.append({"src": src, "dst": dst, "val": val, "items": items, "ename": ename})
+    ml = [f"mrt {m['src']} {m['val']} -" for m in mono]
+    menc = C.run_sharded(harness, "static", ml, wd, "mono.enc", shards=8)
+    dl, dm = [], []
+    for m, a in zip(mono, menc):
+        if a.startswith("ok "):
+            hx = a.split(" ")[1]
+            dl.append(f"mdec {m['dst']} {'' if hx == '-' else hx}0e" )
+            dm.append(m)
+        else:
+            bad.append((f"mrt {m['src']} {m['val'][:60]}", a, "a concrete container does not encode"))
+    mdec = C.run_sharded(harness, "static", dl, wd, "mono.dec", shards=8)
+    for m, l, a in zip(dm, dl, mdec):
+        n = arrlen(m["dst"])
+        if n is not None and n != len(m["items"]):
+            ok = a.startswith("err ")
+        elif m["ename"] == "u8" and not m["dst"].startswith("(ll"):
+            ok = a == "ok b" + ("".join("%02x" % int(x[1:]) for x in m["items"]) or "-") + " 1"
+        else:
+            ok = a == "ok (0" + "".join(" " + x for x in m["items"]) + ") 1"
+        # u8 lists against the byte family are different formats (count-prefixed items vs length-prefixed bytes): not comparable
+        if m["ename"] == "u8" and (m["src"].startswith("(ll") != m["dst"].startswith("(ll")):
+            continue
+        if not ok:
+            bad.append((f"{m['src']} written, read as {m['dst']}: {l[:120]}", a, "a concrete container's encoding is not read back as the same elements by another container"))
+    rep.coverage["concrete_cross_container_cases"] = len(dl)
     C.proof_coverage(rep, ob, "C12")
     alll = [C.codec_line(c) for c in cases + dcases + icases]
     rep.coverage.update({
